@@ -115,6 +115,75 @@ def _mutate(rng, data, kind):
     return bytes(b)
 
 
+def _code_offsets(data):
+    """offsets of the code_item headers of a DEX file (independent walk over class_data_item)"""
+    import struct
+    from specs.dexreader import uleb
+    out = []
+    c_n, c_o = struct.unpack_from("<II", data, 0x60)
+    for i in range(c_n):
+        cdata = struct.unpack_from("<I", data, c_o + 32 * i + 24)[0]
+        if not cdata:
+            continue
+        p = cdata
+        ns = []
+        for _ in range(4):
+            v, p = uleb(data, p)
+            ns.append(v)
+        for _ in range(ns[0] + ns[1]):
+            _, p = uleb(data, p)
+            _, p = uleb(data, p)
+        for _ in range(ns[2] + ns[3]):
+            _, p = uleb(data, p)
+            _, p = uleb(data, p)
+            co, p = uleb(data, p)
+            if co:
+                out.append(co)
+    return sorted(set(out))
+
+
+def _fix_dex(data):
+    """keep a mutated DEX acceptable to the header checks (magic, Adler-32) so that the mutation reaches the section parsers"""
+    import zlib
+    import struct
+    if len(data) < 0x70:
+        return data
+    return data[:8] + struct.pack("<I", zlib.adler32(data[12:]) & 0xFFFFFFFF) + data[12:]
+
+
+def _mutate_dex_struct(rng, data):
+    """structure-aware: boundary values in code_item headers / class_data / map entries, odd file lengths"""
+    import struct
+    b = bytearray(data)
+    codes = _code_offsets(data)
+    for _ in range(rng.randint(1, 3)):
+        what = rng.choice(["code", "code", "code", "map", "ids", "data"])
+        if what == "code" and codes:
+            co = rng.choice(codes)
+            field, width = rng.choice([(0, 2), (2, 2), (4, 2), (6, 2), (8, 4), (12, 4)])     # registers, ins, outs, tries, debug_off, insns_size
+            val = rng.choice([0, 1, 0xFFFF, 0x7FFFFFFF, 0xFFFFFFFF, len(b), len(b) // 2, rng.randrange(1 << 16)])
+            b[co + field:co + field + width] = struct.pack("<I", val & 0xFFFFFFFF)[:width]
+        elif what == "map":
+            mo = struct.unpack_from("<I", b, 0x34)[0]
+            n = struct.unpack_from("<I", b, mo)[0]
+            k = rng.randrange(max(n, 1))
+            field = rng.choice([4, 8])                                                      # size, offset of a map entry
+            val = rng.choice([0, 1, 0xFFFFFFFF, 0x7FFFFFFF, len(b) - 1, len(b) + 1, rng.randrange(len(b))])
+            b[mo + 4 + 12 * k + field:mo + 4 + 12 * k + field + 4] = struct.pack("<I", val)
+        elif what == "ids":
+            i = 0x38 + 4 * rng.randrange(12)                                                # a size/offset word of the header
+            b[i:i + 4] = struct.pack("<I", rng.choice([0, 1, 0xFFFFFFFF, len(b), len(b) - 2, rng.randrange(len(b))]))
+        else:
+            i = rng.randrange(0x70, len(b) - 4)
+            b[i:i + 4] = struct.pack("<I", rng.choice([0, 0xFFFFFFFF, 0x7FFFFFFF, 0x80, 0xFFFF]))
+    r = rng.random()
+    if r < 0.4:
+        b += bytes(rng.randrange(256) for _ in range(rng.randint(1, 3)))                     # file length not a multiple of 4
+    elif r < 0.6:
+        del b[len(b) - rng.randint(1, 7):]
+    return bytes(b)
+
+
 def _parse(kind, data, mods):
     dex, axml, apk = mods
     if kind == "dex":
@@ -132,10 +201,12 @@ def _parse(kind, data, mods):
 
 @unit("C35", covers=[(DEX, "DEX._load"), (AXML, "AXMLParser._do_next"), (AXML, "ARSCParser.__init__"), (APKF, "APK.__init__"),
                      (DEX, "HiddenApiClassDataItem.__init__"), (DEX, "DebugInfoItem.__init__")],
-      params=[{"kind": k, "mut": mu} for k in ("dex", "axml", "arsc", "apk") for mu in ("trunc", "flip", "huge", "nonul")],
+      params=[{"kind": k, "mut": mu} for k in ("dex", "axml", "arsc", "apk") for mu in ("trunc", "flip", "huge", "nonul")]
+      + [{"kind": "dex", "mut": "struct%d" % i} for i in range(4)],
       level="bounded", samples=12,
       note="truncations, 1..4 byte overwrites, huge 32-bit counts and NUL-free prefixes of Test.dex, AndroidManifest.xml, "
-           "resources.arsc and TestActivity.apk; each parse under the harness time limit (20 s); any exception is acceptable, a "
+           "resources.arsc and TestActivity.apk (DEX: Adler-32 re-computed after the mutation so that it reaches the section parsers; "
+           "struct*: boundary values in code_item headers, map entries and header size/offset words, odd file lengths); each parse under the harness time limit (20 s); any exception is acceptable, a "
            "timeout is not", terminates=True)
 def whole_parsers(U, kind, mut):
     global _SEEDS
@@ -144,6 +215,31 @@ def whole_parsers(U, kind, mut):
     mods = (U.mod(DEX), U.mod(AXML), U.mod(APKF))
     seed = U.int("seed", 0, 1 << 30)
     rng = random.Random("%s/%s/%d" % (kind, mut, seed))
-    data = _mutate(rng, _SEEDS[kind], mut)
-    o = U.call(_parse, kind, data, mods)
-    U.ensures("the parser returns (result or error)", True, size=len(data), exc=repr(o.exc)[:120])
+    if mut.startswith("struct"):
+        datas = [_mutate_dex_struct(rng, _SEEDS[kind]) for _ in range(12)]          # cheap parses: several files per sample
+    else:
+        datas = [_mutate(rng, _SEEDS[kind], mut)]
+    if kind == "dex":
+        datas = [_fix_dex(d) for d in datas]
+    for data in datas:
+        o = U.call(_parse, kind, data, mods)
+        U.ensures("the parser returns (result or error)", True, size=len(data), exc=repr(o.exc)[:120])
+
+
+@unit("C35", covers=[(AXML, "AXMLParser._do_next"), (AXML, "AXMLPrinter.__init__"), (AXML, "AXMLParser.getAttributeName")],
+      params=[{"n": n, "names": k} for n in (1200, 5000) for k in ("empty", "distinct", "same")], level="bounded", samples=1,
+      note="well-formed documents with huge declared counts: one element with 1200 / 5000 attributes whose names are all empty "
+           "(androguard invents placeholder names), all distinct, or all the same; parse under the harness time limit", terminates=True)
+def many_attributes(U, n, names):
+    from specs import axmlwriter as W
+    m = U.mod(AXML)
+    U.drawn.update({"n": n, "names": names})
+    nm = {"empty": lambda i: "", "distinct": lambda i: "a%d" % i, "same": lambda i: "dup"}[names]
+    root = W.Elem("manifest", attrs=[W.Attr(nm(i), ("int", i)) for i in range(n)], children=[W.Elem("application")])
+    data = W.write(root)
+    o = U.call(lambda: m.AXMLPrinter(data).get_xml())
+    U.ensures("the parser returns (result or error)", True, exc=repr(o.exc)[:120])
+
+
+many_attributes.enumerate_inputs = lambda tier, **p: iter([{}])
+many_attributes.conc_timeout = 30
